@@ -606,6 +606,30 @@ func c03Tokens(c *core.Ctx, r *core.Reporter) {
 						}
 					}
 				}
+			case *ast.CompositeLit:
+				// makeToken written in place: Token{Kind: K, …}
+				if core.TypeName(lp.TypesInfo.TypeOf(y)) == "Token" {
+					for _, el := range y.Elts {
+						kv, ok := el.(*ast.KeyValueExpr)
+						if !ok {
+							continue
+						}
+						if id, ok := kv.Key.(*ast.Ident); !ok || id.Name != "Kind" {
+							continue
+						}
+						if o := core.ObjOf(lp.TypesInfo, kv.Value); o != nil {
+							if _, isVar := o.(*types.Var); isVar {
+								for _, kc := range kindsC {
+									if core.N(kc) == "INT" || core.N(kc) == "FLOAT" {
+										produced[kc] = true
+									}
+								}
+							} else {
+								produced[o] = true
+							}
+						}
+					}
+				}
 			case *ast.CallExpr:
 				if fo := core.CalleeObj(lp.TypesInfo, y); fo != nil && core.N(fo) == "makeToken" && len(y.Args) == 4 {
 					if o := core.ObjOf(lp.TypesInfo, y.Args[0]); o != nil {
